@@ -74,7 +74,19 @@ func (p *Path) deepCopyJSON(t types.Type, v Value) Value {
 	case *types.Basic:
 		return v
 	case *types.Map:
-		panic(unsupported{"json: maps are not modelled (MapStore snapshot is outside the claim)"})
+		m, ok := v.(*Map)
+		if !ok || m == nil {
+			return v
+		}
+		if !isString(u.Key()) {
+			panic(unsupported{"json: map with non-string keys"})
+		}
+		out := &Map{KT: m.KT, VT: m.VT}
+		for i := range m.K {
+			out.K = append(out.K, copyVal(m.K[i]))
+			out.V = append(out.V, p.deepCopyJSON(u.Elem(), m.V[i]))
+		}
+		return out
 	}
 	panic(unsupported{"json: type " + t.String()})
 }
@@ -85,6 +97,14 @@ func (p *Path) jsonMarshal(v Value) Value {
 		panic(unsupported{"json.Marshal(nil)"})
 	}
 	t, val := itf.T, itf.V
+	// a json.Marshaler's own encoding is the document (encoding/json only compacts it)
+	if f := p.eng.lookupMethod(t, "MarshalJSON"); f != nil && f.Blocks != nil {
+		res := p.callSSA(nil, f, []Value{val}, nil).(Tuple)
+		if !isNilPtr(res[1]) {
+			panic(unsupported{"json: MarshalJSON returned an error"})
+		}
+		return res[0]
+	}
 	if pt, ok := t.Underlying().(*types.Pointer); ok {
 		ptr, ok := val.(*Value)
 		if !ok || ptr == nil {
@@ -92,11 +112,16 @@ func (p *Path) jsonMarshal(v Value) Value {
 		}
 		t, val = pt.Elem(), p.load(pt.Elem(), ptr)
 	}
-	if _, ok := t.Underlying().(*types.Struct); !ok {
-		panic(unsupported{"json.Marshal of non-struct " + t.String()})
+	switch t.Underlying().(type) {
+	case *types.Struct, *types.Map:
+	default:
+		panic(unsupported{"json.Marshal of " + t.String()})
 	}
 	p.nextID++
-	return &Blob{ID: p.nextID, Len: p.fresh("jsonlen", 64), Data: &jsonPayload{T: t, V: p.deepCopyJSON(t, val)}}
+	ln := p.fresh("jsonlen", 64)
+	// a JSON document of an object has at least its two braces
+	p.assume(p.ctx.And(p.ctx.Ule(p.ctx.BV(2, 64), ln), p.ctx.Ult(ln, p.ctx.BV(1<<31, 64))))
+	return &Blob{ID: p.nextID, Len: ln, Data: &jsonPayload{T: t, V: p.deepCopyJSON(t, val)}}
 }
 
 // jsonAssign copies src (of struct type st) into the struct cell *dst (of type dt) by JSON name.
@@ -135,6 +160,35 @@ func (p *Path) jsonAssign(dt types.Type, dst *Value, st types.Type, src Value) {
 	}
 }
 
+// jsonInto decodes the document bl/pl into *dst (static type tt = pointer pt).
+func (p *Path) jsonInto(bl *Blob, pl *jsonPayload, tt types.Type, pt *types.Pointer, dst *Value) Value {
+	// a json.Unmarshaler receives the document itself
+	if f := p.eng.lookupMethod(tt, "UnmarshalJSON"); f != nil && f.Blocks != nil {
+		return p.callSSA(nil, f, []Value{dst, bl}, nil)
+	}
+	if mt, ok := pt.Elem().Underlying().(*types.Map); ok {
+		src, ok := pl.V.(*Map)
+		if _, isMap := pl.T.Underlying().(*types.Map); !isMap || (!ok && pl.V != nil) {
+			return p.newError("json: cannot unmarshal object into Go value of type " + pt.Elem().String())
+		}
+		// encoding/json allocates a map only when the target is nil and otherwise
+		// adds to / overwrites the entries that are there
+		m, _ := (*dst).(*Map)
+		if m == nil {
+			m = &Map{KT: mt.Key(), VT: mt.Elem()}
+			*dst = m
+		}
+		if src != nil {
+			for i := range src.K {
+				p.mapUpdate(m, src.K[i], p.deepCopyJSON(mt.Elem(), src.V[i]))
+			}
+		}
+		return Iface{}
+	}
+	p.jsonAssign(pt.Elem(), dst, pl.T, pl.V)
+	return Iface{}
+}
+
 func init() {
 	reg("encoding/json.Marshal", func(p *Path, _ *frame, a []Value) Value {
 		return Tuple{p.jsonMarshal(a[0]), Iface{}}
@@ -160,7 +214,50 @@ func init() {
 		if !ok || dst == nil {
 			return p.newError("json: Unmarshal(nil)")
 		}
-		p.jsonAssign(pt.Elem(), dst, pl.T, pl.V)
-		return Iface{}
+		return p.jsonInto(bl, pl, tgt.T, pt, dst)
+	})
+	// json.NewDecoder(r).Decode(v) where r is a *bytes.Reader positioned at the
+	// start of a document of the model: the whole document is consumed.
+	reg("encoding/json.NewDecoder", func(p *Path, _ *frame, a []Value) Value {
+		return &NativeObj{Kind: "json.Decoder", T: types.NewPointer(p.eng.namedType("encoding/json", "Decoder")), Data: a[0]}
+	})
+	reg("(*encoding/json.Decoder).Decode", func(p *Path, _ *frame, a []Value) Value {
+		r := pData[Value](p, a[0], "json.Decoder")
+		itf, ok := r.(Iface)
+		if !ok || itf.T == nil || itf.T.String() != "*bytes.Reader" {
+			panic(unsupported{"json.Decoder over a reader that is not a *bytes.Reader"})
+		}
+		cell := itf.V.(*Value)
+		rt := p.eng.namedType("bytes", "Reader")
+		if *cell == nil {
+			*cell = p.zero(rt)
+		}
+		st := (*cell).(Struct)
+		bl, ok := p.structField(st, rt, "s").(*Blob)
+		pos := p.asTerm(p.structField(st, rt, "i"), "bytes.Reader position")
+		if !ok {
+			panic(unsupported{"json.Decoder over bytes that are not a document of the json model"})
+		}
+		if !pos.IsConst() || pos.K != 0 {
+			return p.loadGlobalErr("io", "EOF")
+		}
+		p.setField(st, rt, "i", bl.Len)
+		pl, ok := bl.Data.(*jsonPayload)
+		if !ok {
+			return p.newError("json: invalid character (not a JSON document)")
+		}
+		tgt, ok := a[1].(Iface)
+		if !ok || tgt.T == nil {
+			panic(unsupported{"json Decode into nil"})
+		}
+		pt, ok := tgt.T.Underlying().(*types.Pointer)
+		if !ok {
+			return p.newError("json: Unmarshal(non-pointer)")
+		}
+		dst, ok := tgt.V.(*Value)
+		if !ok || dst == nil {
+			return p.newError("json: Unmarshal(nil)")
+		}
+		return p.jsonInto(bl, pl, tgt.T, pt, dst)
 	})
 }
